@@ -303,6 +303,7 @@ def check_theorems(pid):
 # ------------------------------------------------------------------ scenarios
 JOB_TIMEOUT = {"quick": 900, "thorough": 7200}
 CUR_TIER = ["quick"]
+CUR_PID = [""]
 
 
 def harness_cmd(args, outfile):
@@ -319,7 +320,7 @@ def runner_cmd(zob, infile, outfile):
     with open(infile) as fi, open(outfile, "w") as fo:
         try:
             r = subprocess.run([RUNNER_BIN, zob], stdin=fi, stdout=fo, stderr=subprocess.PIPE, text=True,
-                               timeout=JOB_TIMEOUT[CUR_TIER[0]])
+                               timeout=JOB_TIMEOUT[CUR_TIER[0]], env=dict(os.environ, VERIF_PID=CUR_PID[0]))
         except subprocess.TimeoutExpired:
             return 124, "model runner timed out"
     return r.returncode, r.stderr[-2000:]
@@ -531,6 +532,7 @@ def write_replay(pid, tier, seed, fail, idx):
 def run_property(pid, tier, seed, replay=None):
     t0 = time.time()
     CUR_TIER[0] = tier
+    CUR_PID[0] = pid
     cfg = PROPS.CONFIG[pid]
     wdir = os.path.join(WORK, pid)
     replay_body = json.load(open(replay)) if replay else None   # read before the work dir is cleared
